@@ -390,6 +390,29 @@ pub fn run_c03(out: &mut Out, rng: &mut Rng, thorough: bool, only: Option<&str>)
                 s.fin(g);
             }
         }
+        // runs of one byte value ("text followed by padding") with piece boundaries 0..5 bytes into a run
+        for _ in 0..(if thorough { 12 } else { 3 }) {
+            let mut data: Vec<u8> = Vec::new();
+            let mut cuts: Vec<usize> = Vec::new();
+            for _ in 0..rng.range(2, 4) {
+                let k = rng.range(3, 40) as usize;
+                data.extend(rng.bytes(k));
+                let run = rng.range(33, 90) as usize;
+                let fill = *rng.pick(&[0u8, 0x20, 0xff, 0x41]);
+                cuts.push(data.len() + rng.below(6) as usize);
+                data.extend(std::iter::repeat(fill).take(run));
+            }
+            s.new_gen(0);
+            let mut prev = 0;
+            for c in cuts {
+                let c = c.min(data.len());
+                s.update(0, &data[prev..c]);
+                prev = c;
+            }
+            s.update(0, &data[prev..]);
+            s.fin(0);
+            s.whole(&data);
+        }
         // the far end: the same bytes in 1-3 byte pieces and in one piece (a clone), across the
         // 2^32 - 4 and 4 224 281 216 byte marks (from an injected state a few bytes before)
         for (k, mark) in [(1u64 << 32) - 4, 4_224_281_216u64].into_iter().enumerate() {
